@@ -34,15 +34,15 @@ def gather {α} (xs : List α) : List Int → Option (List α)
 /-- `gather` for subscripts already known to be natural numbers in range -/
 def gatherNat {α} (xs : List α) (idx : List Nat) : List α := idx.filterMap (xs[·]?)
 
-/-! ### storage of an indexed string column: offsets + concatenated bytes -/
+/-! ### storage of an indexed string column: offsetsF + concatenated bytes -/
 
 /-- `[s, s+|e₀|, s+|e₀|+|e₁|, …]` -/
-def offsetsFrom {α} (s : Nat) : List (List α) → List Nat
+def offsetsFromF {α} (s : Nat) : List (List α) → List Nat
   | [] => [s]
-  | e :: es => s :: offsetsFrom (s + e.length) es
+  | e :: es => s :: offsetsFromF (s + e.length) es
 
 /-- the `index` array of an indexed string field holding the entries `es` -/
-def offsets {α} (es : List (List α)) : List Nat := offsetsFrom 0 es
+def offsetsF {α} (es : List (List α)) : List Nat := offsetsFromF 0 es
 
 /-! ### columns and frames, independent of how they are stored -/
 
